@@ -484,9 +484,8 @@ func Product(autos []Automaton, alphabet []rune, maxStates int, visit func(st []
 	witness := func(id int) func() string {
 		return func() string {
 			var rs []rune
-			for id > 0 {
+			for id := id; id > 0; id = nodes[id].parent {
 				rs = append(rs, nodes[id].c)
-				id = nodes[id].parent
 			}
 			for i, j := 0, len(rs)-1; i < j; i, j = i+1, j-1 {
 				rs[i], rs[j] = rs[j], rs[i]
